@@ -68,14 +68,19 @@ class CallGen:
         self.tid += 1
         return [['tick', 1000 + self.tid, ['list'] + names]]
 
-    def user_callee_case(self, nreq, nopt, rest, argc, kind, route):
-        """One history: define the callee, call it through `route` with argc tick'd arguments."""
+    def user_callee_case(self, nreq, nopt, rest, argc, kind, route, atoms=False):
+        """One history: define the callee, call it through `route` with argc tick'd arguments.
+        atoms=True: every argument is an atom (a bare variable named like a parameter, or a constant):
+        a call whose arguments need no evaluation of a form."""
         r = self.r
         self.tid = 0
         ps, names = self.param_list(nreq, nopt, rest)
         body = self.body(names)
         pre = [['setq', v, Q(['g', v])] for v in PNAMES]     # globals named like the parameters
-        args = [self.arg_expr(r.choice([1, 2, Q('s'), Q([1]), Str('x')]), names) for _ in range(argc)]
+        if atoms:
+            args = [r.choice((names or PNAMES) + (names or PNAMES) + [r.choice(PNAMES), 1, Str('x'), ':kw', None]) for _ in range(argc)]
+        else:
+            args = [self.arg_expr(r.choice([1, 2, Q('s'), Q([1]), Str('x')]), names) for _ in range(argc)]
         if kind == 'defun':
             pre.append(['defun', 'callee', ps] + body); fexpr = Q('callee'); head = 'callee'
         elif kind == 'lambda':
